@@ -22,14 +22,51 @@ func checkC07(p *Program, r *Result) {
 	r.rule("C07.d", "attachment CRC accumulation covers exactly the bytes delivered", 4)
 	r.rule("C07.s", "stored attachment CRC slot has one writer", 1)
 
-	lc := p.lookupFunc(pkgMcap, "loadChunk")
-	if lc == nil {
+	entry := p.lookupFunc(pkgMcap, "loadChunk")
+	if entry == nil {
 		r.undecided("C07.a", "mcap.loadChunk", "anchor", "", "not found")
 		return
 	}
+	// the function that computes the chunk CRC: loadChunk itself or a helper it calls (searched breadth-first, depth 3)
+	lc := entry
+	chain := map[*ssa.Function]bool{entry: true}
+	{
+		hasSum := func(f *ssa.Function) bool {
+			return len(callsIn(f, isIEEEChecksum)) > 0
+		}
+		parent := map[*ssa.Function]*ssa.Function{}
+		level := []*ssa.Function{entry}
+		var foundFn *ssa.Function
+		if hasSum(entry) {
+			foundFn = entry
+		}
+		for depth := 0; depth < 3 && foundFn == nil; depth++ {
+			var next []*ssa.Function
+			for _, f := range level {
+				for _, ci := range callsIn(f, func(ssa.CallInstruction) bool { return true }) {
+					g := ci.Common().StaticCallee()
+					if g == nil || g.Blocks == nil || !p.isRepoFunc(g) || p.funcPkgPath(g) != pkgMcap || parent[g] != nil || g == entry {
+						continue
+					}
+					parent[g] = f
+					next = append(next, g)
+					if foundFn == nil && hasSum(g) {
+						foundFn = g
+					}
+				}
+			}
+			level = next
+		}
+		if foundFn != nil {
+			lc = foundFn
+			for f := foundFn; f != nil; f = parent[f] {
+				chain[f] = true
+			}
+		}
+	}
 	fname := funcName(lc)
 	var sumCall *ssa.Call
-	for _, ci := range callsIn(lc, func(ci ssa.CallInstruction) bool { return calleeIs(ci, "hash/crc32.ChecksumIEEE") }) {
+	for _, ci := range callsIn(lc, isIEEEChecksum) {
 		sumCall, _ = ci.(*ssa.Call)
 	}
 	if sumCall == nil {
@@ -90,7 +127,7 @@ func checkC07(p *Program, r *Result) {
 			}
 		}
 		// the hashed buffer is filled by ReadFull of the same slice
-		hashed := sumCall.Call.Args[0]
+		hashed := checksumData(sumCall)
 		full := false
 		for _, ci := range callsIn(lc, func(ci ssa.CallInstruction) bool { return calleeIs(ci, "io.ReadFull") }) {
 			if sameSliceShape(ci.Common().Args[1], hashed) && instrDominates(ci, sumCall) {
@@ -106,29 +143,68 @@ func checkC07(p *Program, r *Result) {
 	// ---- b
 	if next := p.lookupFunc(pkgMcap, "Lexer.Next"); next != nil {
 		cfg := errFlowCfg{rule: "C07.b", inScope: func(site ssa.CallInstruction) (bool, string) {
-			if calleeRepoName(site) == "mcap.loadChunk" {
-				return true, "mcap.loadChunk"
+			if f := site.Common().StaticCallee(); f != nil && chain[f] {
+				return true, funcName(f)
 			}
 			return false, ""
 		}}
 		runErrFlow(p, r, next, cfg)
+		for _, f := range sortedFuncs(chain) {
+			if f != lc {
+				runErrFlow(p, r, f, cfg)
+			}
+		}
 	}
 	// ---- d
 	if rd := p.lookupFunc(pkgMcap, "crcReader.Read"); rd != nil {
-		var inner *ssa.Call
-		for _, ci := range callsIn(rd, func(ci ssa.CallInstruction) bool { return ci.Common().IsInvoke() && ci.Common().Method.Name() == "Read" }) {
-			inner, _ = ci.(*ssa.Call)
-		}
-		ok := false
+		// every write to the hash is p[:n] with n the count of a wrapped Read(p) that precedes it; a wrapped Read whose count
+		// feeds no hash write must sit behind a test of the computeCRC switch
+		reads := callsIn(rd, func(ci ssa.CallInstruction) bool { return ci.Common().IsInvoke() && ci.Common().Method.Name() == "Read" })
+		var inner ssa.CallInstruction
+		ok := len(reads) > 0
 		why := "no wrapped Read call"
-		if inner != nil {
-			why = "the hash is not fed p[:n] with n the count returned by the wrapped Read"
-			for _, ci := range callsIn(rd, func(ci ssa.CallInstruction) bool { return ci.Common().IsInvoke() && ci.Common().Method.Name() == "Write" }) {
-				if sl, ok2 := ci.Common().Args[0].(*ssa.Slice); ok2 && sl.X == ssa.Value(rd.Params[1]) && sl.Low == nil {
-					if ex, ok3 := sl.High.(*ssa.Extract); ok3 && ex.Tuple == ssa.Value(inner) && ex.Index == 0 {
-						ok = true
+		hashedReads := map[ssa.Value]bool{}
+		nw := 0
+		for _, ci := range callsIn(rd, func(ci ssa.CallInstruction) bool { return ci.Common().IsInvoke() && ci.Common().Method.Name() == "Write" }) {
+			nw++
+			good := false
+			if sl, ok2 := ci.Common().Args[0].(*ssa.Slice); ok2 && sl.X == ssa.Value(rd.Params[1]) && sl.Low == nil {
+				if ex, ok3 := sl.High.(*ssa.Extract); ok3 && ex.Index == 0 {
+					if rc, ok4 := ex.Tuple.(*ssa.Call); ok4 && rc.Call.IsInvoke() && rc.Call.Method.Name() == "Read" && instrDominates(rc, ci) {
+						good = true
+						hashedReads[rc] = true
 					}
 				}
+			}
+			if !good {
+				ok = false
+				why = "the hash is not fed p[:n] with n the count returned by the wrapped Read"
+			}
+		}
+		if nw == 0 {
+			ok = false
+			why = "the bytes read are never written to the hash"
+		}
+		for _, rc := range reads {
+			inner = rc
+			if hashedReads[rc.Value()] {
+				continue
+			}
+			gated := false
+			for d := rc.Block(); d != nil; d = d.Idom() {
+				if iff, isIf := d.Instrs[len(d.Instrs)-1].(*ssa.If); isIf && d != rc.Block() || isIf && d == rc.Block() && false {
+					cond := iff.Cond
+					if u, isU := cond.(*ssa.UnOp); isU && u.Op == token.NOT {
+						cond = u.X
+					}
+					if loadOfField(cond, "crcReader", "computeCRC") {
+						gated = true
+					}
+				}
+			}
+			if !gated {
+				ok = false
+				why = "a wrapped Read delivers bytes that are not written to the hash although CRC computation is not known to be off"
 			}
 		}
 		if ok && transparentReadWrapper(rd, inner) {
@@ -281,4 +357,25 @@ func sameFieldLoad(a, b ssa.Value) bool {
 	ta, fa, ba, oka := fieldRef(ua.X)
 	tb, fb, bb, okb := fieldRef(ub.X)
 	return oka && okb && ta == tb && fa == fb && ba == bb
+}
+
+// isIEEEChecksum: crc32.ChecksumIEEE(data), crc32.Checksum(data, crc32.IEEETable) or crc32.Update(_, crc32.IEEETable, data).
+func isIEEEChecksum(ci ssa.CallInstruction) bool {
+	c := ci.Common()
+	switch {
+	case calleeIs(ci, "hash/crc32.ChecksumIEEE"):
+		return true
+	case calleeIs(ci, "hash/crc32.Checksum") && len(c.Args) == 2:
+		return globalLoad(c.Args[1]) == "hash/crc32.IEEETable"
+	case calleeIs(ci, "hash/crc32.Update") && len(c.Args) == 3:
+		return globalLoad(c.Args[1]) == "hash/crc32.IEEETable"
+	}
+	return false
+}
+
+func checksumData(c *ssa.Call) ssa.Value {
+	if calleeIs(c, "hash/crc32.Update") {
+		return c.Call.Args[2]
+	}
+	return c.Call.Args[0]
 }
